@@ -810,6 +810,7 @@ class BayesianOptimizationSearcher(ModelBasedSearcher):
             cost_attr=self._cost_attr,
             resource_attr=self._resource_attr,
             filter_observed_data=self._filter_observed_data,
+            state_converter=self.state_transformer.state_converter,
             allow_duplicates=self._allow_duplicates,
             restrict_configurations=self._restrict_configurations,
         )
